@@ -1,9 +1,10 @@
-"""C05 -- E1 exploration, monitor selected by tag (see DESIGN.md section 4)."""
-from checks import e1
+"""C05 -- inline-storage promise: E1 (FixedCapacityVector, SmallVector) and E2 (SmallSet), monitor 'inline'."""
+from checks import e1, e2
 
 
 def run(ctx):
-    matrix = e1.quick_matrix() if ctx.tier == "quick" else e1.thorough_matrix()
-    matrix = [i for i in matrix if e1.relevant("C05", i)]
-    cov = e1.explore(ctx, matrix, ["C05"])
-    return ctx.finish("model_checking", cov, e1.ASSUME)
+    q = ctx.tier == "quick"
+    vm = [i for i in (e1.quick_matrix() if q else e1.thorough_matrix()) if e1.relevant("C05", i)]
+    cov = e1.explore(ctx, vm, ["C05"])
+    cov2 = e1.explore(ctx, e2.small_quick() if q else e2.small_thorough(), ["C05"], engine="E2", eng=e2.ENG)
+    return ctx.finish("model_checking", e1.merge_cov(cov, cov2), e1.ASSUME + e2.ASSUME[1:])
